@@ -3,11 +3,36 @@ from vcheck import sexp
 
 ID = "C20"
 LEVEL = "proof"
-LEAN_IMPORTS = ["WM.Props.C20Varint"]
-THEOREMS = ["WM.C20.varint_roundtrip", "WM.C20.zigzag_roundtrip", "WM.C20.signed_varint_roundtrip",
-            "WM.C20.encode_bytes"]
-RULE = ("varint: every n < 2^14 plus boundary-biased samples up to 2^70; non-trivial = encoding longer "
-        "than one byte; distinct = distinct (component, input)")
+LEAN_IMPORTS = ["WM.Props.C20Varint", "WM.Props.C20IdSets", "WM.Props.C20NumLists", "WM.Props.C20Hash", "WM.Props.C20Sort", "WM.Props.C20Compound", "WM.Props.C20Base85"]
+_IDSET_THEOREMS = """bitset_iter_sorted bitset_mem ondisk_mem bitset_add bitset_discard bitset_ofSource bitset_update
+bitset_intersection_update bitset_difference_update bitset_union bitset_intersection bitset_difference
+bitset_invert bitset_clear bitset_trim bitset_resize bitset_len bitset_bool bitset_first bitset_last
+bitset_before bitset_after sis_ofSource sis_contains sis_add sis_discard sis_before sis_after sis_first_last
+sis_update sis_intersection sis_difference sis_invariant sis_invert_exact sis_invert_partial
+rev_iter rev_contains rev_first rev_last rev_len rev_add rev_discard
+multi_iter_sorted multi_contains multi_len
+delta_roundtrip delta_roundtrip_inv fixed_roundtrip fixed_get varints_roundtrip growable_contents growable_fits
+growable_extend growable_thresholds growable_nat_never_fails growable_readback
+hash_build_total hash_lookup hash_get_contains hash_items ordered_closest_key ordered_items_from
+extsort_sorted_perm extsort_reduce_bound extsort_rejects compound_member_bytes compound_directory
+compound_writer_streams b85_roundtrip b85_chars_ascending""".split()
+THEOREMS = (["WM.C20.varint_roundtrip", "WM.C20.zigzag_roundtrip", "WM.C20.signed_varint_roundtrip",
+             "WM.C20.encode_bytes"] + ["WM.C20." + t for t in _IDSET_THEOREMS])
+PARTIAL = {
+    "WM.C20.sis_invert_partial": "full statement `sis_invert_full` (for every size) is false for the generic "
+                                 "DocIdSet.invert_update loop: members >= size are kept (recorded finding; negation "
+                                 "proved for SortedIntSet([1,2,9]).invert(5)); `sis_invert_exact` states what the loop does",
+}
+RULE = ("varint: every n < 2^14 plus boundary-biased samples up to 2^70 (non-trivial: more than one byte). "
+        "id sets: random op programs (3-24 ops; values biased to byte boundaries, 8k-1/8k/8k+1, beyond the array) on "
+        "BitSet/OnDiskBitSet/SortedIntSet/ReverseIdSet/MultiIdSet (non-trivial: a mutator changed the set and a query "
+        "returned a member). number lists: delta lists, GrowableArray append sequences across 255/256, 65535/65536, "
+        "2^31, 2^32, 2^63 (non-trivial: a retype happened), fixed/varint/Simple16/GInts lists (non-trivial: >= 2 distinct "
+        "numbers). hash files: 0..5000 keys, 8 hash functions incl. constant and 2-3-valued ones, start offsets 0, 3, "
+        "~2^16, ~2^31, ~2^32 (non-trivial: >= 2 pairs with a bucket collision or duplicate key). external sort: run sizes "
+        "1..7, maxfiles 2..4 (non-trivial: more runs than maxfiles). compound: 1..8 members / interleaved sub-stream "
+        "writes with buffer sizes 0..64 (non-trivial: >= 2 members with data / a flush happened). "
+        "distinct = distinct canonical (component, input)")
 
 
 def _varints(ctx):
@@ -65,17 +90,95 @@ def bytes_to_chars(b):
 
 
 def run(ctx):
-    _varints(ctx)
+    import os
+    import time
+    from gen import c20_idsets, c20_numlists, c20_hash, c20_misc
+    streams = [("varint", _varints), ("idsets", c20_idsets.run), ("numlists", c20_numlists.run),
+               ("hash", c20_hash.run), ("misc", c20_misc.run)]
+    only = os.environ.get("C20_ONLY")
+    # corpus replay first
+    import json
+    cdir = os.path.join(os.path.dirname(os.path.dirname(os.path.dirname(os.path.abspath(__file__)))), "corpus", "C20")
+    if os.path.isdir(cdir):
+        for fn in sorted(os.listdir(cdir)):
+            if fn.endswith(".json"):
+                rec = json.load(open(os.path.join(cdir, fn)))
+                if rec.get("stream") == "idsets":
+                    for c in rec["cases"]:
+                        c20_idsets.replay_case(ctx, {"case": c, "op": None})
+                    ctx.stat("corpus-cases:idsets", len(rec["cases"]))
+    for name, fn in streams:
+        if only and name not in only.split(","):
+            continue
+        t0 = time.time()
+        fn(ctx)
+        ctx.note("stream %s: %.1fs, %d evaluations so far" % (name, time.time() - t0, ctx.evaluations))
 
 
 def replay(ctx, rec):
-    print(rec)
-    return False
+    """Re-execute a stored failing input against the current tree.  Id-set records carry the whole
+    op program and are re-run alone; for the other streams the generating stream is re-run with the
+    recorded tier/seed (generation is a pure function of them) and the signature is looked for."""
+    import os
+    from gen import c20_idsets, c20_numlists, c20_hash, c20_misc
+    sig = rec.get("signature", "")
+    stored = rec.get("case")
+    ctx.tier, ctx.seed = rec.get("tier", ctx.tier), rec.get("seed", ctx.seed)
+    head = sig.split(".")[0].split(":")[0]
+    if isinstance(stored, dict) and isinstance(stored.get("case"), dict) and "kind" in stored["case"] \
+            and head in ("BitSet", "OnDiskBitSet", "SortedIntSet", "ReverseIdSet", "MultiIdSet"):
+        c20_idsets.replay_case(ctx, stored)
+    elif head in ("HashReader", "HashWriter", "OrderedHashReader", "OrderedHashWriter", "HashWriter/HashReader"):
+        c20_hash.run(ctx)
+    elif head in ("externalsort", "SortingPool", "compound", "CompoundStorage", "CompoundWriter", "base85",
+                  "from_base85(to_base85(x))!=x"):
+        c20_misc.run(ctx)
+    elif head in ("varint-roundtrip", "zigzag-roundtrip"):
+        _varints(ctx)
+    else:
+        c20_numlists.run(ctx)
+    hits = [v for v in ctx.violations if v["signature"] == sig]
+    for v in hits[:1]:
+        print("expected: %r" % (v["expected"],))
+        print("observed: %r" % (v["observed"],))
+    return bool(hits)
+
+
+ASSUMPTIONS = [
+    "array('B') keeps bit-array bytes below 256 (hypothesis of bitset_len/bitset_bool); doc ids are non-negative",
+    "ReverseIdSet: wrapped ids and queried ids lie below `limit` (its documented precondition); MultiIdSet: sub-sets are "
+    "serial, at least one, first offset 0 (Multi.WF)",
+    "hash files: record positions are positive (the 13-byte header precedes them) and distinct; hash values fit 32 bits "
+    "on the real side (the model needs no bound)",
+    "external sort: `le` is total and transitive; heapq.merge is a stable k-way merge, list.sort/sorted stable sorts",
+    "model mirrors code: sampled on every run (correspondence streams), not proved",
+]
+TRUSTED = [
+    "CPython bisect/heapq.merge/sorted/set/array/struct/pickle/marshal/BytesIO (modelled by their specifications)",
+    "byte layout of the hash file's structs, directory and pickled extras, and of the compound directory pickle: "
+    "parsed by the harness and compared field by field with the model's positions/slots, not modelled as bytes",
+    "Simple16 and GInts codecs: not modelled, run end-to-end only",
+]
+EXPLANATION = (
+    "Every run: (1) axiom audit of the 74 theorems; (2) correspondence: generated op programs / number lists / "
+    "key-value sets / sort inputs / member files are executed on the real whoosh classes and on the compiled Lean "
+    "models, raw state compared (bit arrays, sorted arrays, typecodes, record positions, every hash-table slot, "
+    "directory offsets, sub-stream blocks); (3) end-to-end: the public API against the Lean specification "
+    "(WM.Spec.IdSet through the driver, cross-checked with Python set; value lists per key; sorted(input); member bytes).")
 
 MANIFEST = {
-    "level_text": "Lean theorems (unbounded: all integers, all suffixes) for the varint/zig-zag codecs over an "
-                  "executable model; the model is tied to whoosh.util.varints by exhaustive-below-2^14 plus "
-                  "boundary-biased differential runs on every check.",
-    "level_note": "Trusted: Lean kernel + propext/Quot.sound/Classical.choice; the hand-written model mirrors the "
-                  "code only as far as the differential run shows; CPython ints/bytes.",
+    "level_text": "Lean theorems, unbounded (all op programs, all key/value lists with any hash function, all run sizes and "
+                  "maxfiles, all buffer sizes and interleavings, all integers): every BitSet/OnDiskBitSet/SortedIntSet/"
+                  "ReverseIdSet/MultiIdSet operation is the set operation on `toSet`; HashWriter always terminates and "
+                  "HashReader.all(k) is the list of values written under k in insertion order (open addressing over 2n "
+                  "slots), ordered files answer closest_key/items_from by binary search; varint, delta, fixed-width, "
+                  "growable-array and base-85 codecs round-trip; the external sort returns a sorted permutation; compound "
+                  "members and sub-streams are byte-identical. Models are tied to whoosh by differential runs on every check.",
+    "level_note": "Partial: SortedIntSet.invert (generic DocIdSet.invert_update keeps members >= size) is proved only for sets "
+                  "below `size` (recorded finding, exact behaviour proved as sis_invert_exact). Not modelled: Simple16/GInts, "
+                  "byte-level struct/pickle layout, temp files of the sort, FieldedOrderedHash*, RoaringIdSet, b85encode/b85decode "
+                  "(last three are broken on this tree: recorded findings / out of the property's list). Trusted: Lean kernel "
+                  "+ propext/Quot.sound/Classical.choice, CPython stdlib pieces modelled by specification.",
+    "technique": "machine-checked proof in Lean 4 over executable models + differential correspondence check and "
+                 "spec-as-oracle end-to-end run against the implementation",
 }
